@@ -16,6 +16,9 @@
                            of a million elements, 48 MB of content behind 48 KB of zlib, a cross-reference stream of two
                            million free entries behind 10 KB
      Tail(s, v)            the last bytes of unfiltered content stream s overwritten by the cut-short token v
+     XrefCut(n, pad)       the startxref block moved in front of the cross-reference section it names (its offset follows
+                           the move) and that section cut after n lines, followed by nothing, blank lines or comments: a
+                           valid pointer leads the reader into a section that ends with the file
      Body(o, v)            the body of non-stream object o replaced: a reference to itself / to the next object,
                            nesting 3000 deep, a scalar, a dictionary whose /Kids is an indirect reference
 
@@ -56,6 +59,7 @@ WellFormed(b, f) ==
     [] f.k = "random" -> f.len \in 0..4096
     [] f.k = "bomb" -> InSeq(f.name, BombNames)
     [] f.k = "tail" -> b.ntails > 0 /\ f.stream \in 0..(b.ntails - 1) /\ InSeq(f.val, ContentTails)
+    [] f.k = "xrefcut" -> f.lines \in 0..12 /\ f.pad \in {"none", "blank", "comment"}
     [] f.k = "body" -> b.nbodies > 0 /\ f.obj \in 0..(b.nbodies - 1) /\ InSeq(f.val, BodyVals)
     [] OTHER -> FALSE
 
